@@ -190,6 +190,7 @@ func genC12(r *Rng, tier string) *World {
 	c.MaxDepth = 2 + r.Intn(2)
 	c.PPT = Pick(r, []float64{0.3, 0.6})
 	c.PPTErr = Pick(r, []float64{0, 0.15, 0.3})
+	c.HandMade = true
 	c.Coercers = r.P(0.4)
 	c.Widths = true
 	c.PCustomT = Pick(r, []float64{0.5, 0.8})
@@ -318,6 +319,9 @@ func runC12(x *X) *Violation {
 		res := x.Exec("0:"+strconv.Itoa(i), op)
 		if res.Panic != "" {
 			return &Violation{Class: "C12/panic mode=" + op.Kind, Detail: "call did not return: " + res.Panic}
+		}
+		if s := x.E.SentinelsChanged(); s != "" {
+			return &Violation{Class: "C12/caller-owned-issue-modified mode=" + op.Kind, Detail: s + "; issues " + fmt.Sprint(res.PCTs())}
 		}
 		m := ModelFor(n, op, res)
 		if m.Desync {
